@@ -53,6 +53,13 @@ const (
 var vfC16ProcDir string
 
 func vfC16ScratchRoot() string {
+	// a memory file system when there is one: tens of thousands of create / remove cycles
+	if st, err := os.Stat("/dev/shm"); err == nil && st.IsDir() {
+		root := "/dev/shm/verif-c16"
+		if os.MkdirAll(root, 0o755) == nil {
+			return root
+		}
+	}
 	d := os.Getenv("VERIF_DIR")
 	if d == "" {
 		d = "/verif"
@@ -1183,6 +1190,13 @@ func vfC16FExec(hist []int, last bool) vfXResult {
 		}
 		code := 0
 		collect := map[*vfC16FUp]bool{} // uploads this gc run must remove
+		calls0 := x.w.db.Calls()
+		faulted := isLast && vfXFault.K > 0
+		var preLinks map[types.Uid][]string
+		if faulted {
+			preLinks = vfC16FActualLinks(x)
+			x.w.db.FailAt(vfXFault.K, vfErrInjectedStore)
+		}
 		switch op.Kind {
 		case "upload":
 			nup++
@@ -1190,7 +1204,9 @@ func vfC16FExec(hist []int, last bool) vfXResult {
 			up, c := x.upload(x.users[op.User], content, "image/png")
 			code = c
 			if up == nil {
-				bad("C16:valid-request-refused:upload:files", fmt.Sprintf("a valid upload was answered %d", c), nil)
+				if !faulted {
+					bad("C16:valid-request-refused:upload:files", fmt.Sprintf("a valid upload was answered %d", c), nil)
+				}
 				break
 			}
 			u := &vfC16FUp{N: nup, ID: up.ID, URL: up.URL, Bytes: content, Loc: up.Loc}
@@ -1270,7 +1286,9 @@ func vfC16FExec(hist []int, last bool) vfXResult {
 				}
 			}
 			if err := store.Files.DeleteUnused(cutoff, 100); err != nil {
-				bad("C16:gc-error", "DeleteUnused failed: "+err.Error(), nil)
+				if !faulted {
+					bad("C16:gc-error", "DeleteUnused failed: "+err.Error(), nil)
+				}
 				code = 500
 			}
 			vsched.Quiesce()
@@ -1279,6 +1297,17 @@ func vfC16FExec(hist []int, last bool) vfXResult {
 			for _, u := range m.Ups {
 				u.Old = true
 			}
+		}
+		if isLast && op.Kind != "failed" && op.Kind != "age" {
+			// (the two harness-made operations talk to the store directly: no fault runs for them)
+			res.NCalls = x.w.db.Calls() - calls0
+		}
+		if faulted {
+			x.w.db.ClearFaults()
+			vsched.Quiesce()
+			res.Violations = append(res.Violations, vfC16FFaultOracles(x, m, op, code, preLinks, calls0, res.Counts)...)
+			res.Key = "!fault-run"
+			return res
 		}
 		// deletions are read off the store: a message / the topic which no longer exists holds no link
 		rows := map[int]bool{}
@@ -1525,6 +1554,12 @@ func init() {
 				return 8
 			}
 			return 5
+		}, FaultDepth: func(th bool) int {
+			// every store call of the last operation fails once, for all histories up to this length
+			if th {
+				return 5
+			}
+			return 3
 		}}
 }
 
@@ -1532,4 +1567,147 @@ func TestVerifC16Files(t *testing.T) {
 	base := vfC16NewBase("files")
 	defer os.RemoveAll(base)
 	vfXSearch(t, "C16", "files", "files")
+}
+
+// vfC16FFaultOracles judges the last operation of a history re-executed with one store call failing.
+// The reply decides nothing here; the ground truth is the store: (1) a refused request has not
+// moved any link; (2) after the grace period a garbage collection removes no upload which an
+// existing message lists or which the topic / the account shows as its avatar, and removes every
+// other one together with its bytes.
+func vfC16FFaultOracles(x *vfC16FWorld, m *vfC16FModel, op vfC16FOp, code int, preLinks map[types.Uid][]string, calls0 int, info map[string]int64) []vfXViolation {
+	var out []vfXViolation
+	failed := "?"
+	for _, j := range x.w.db.Journal() {
+		if j.Seq == calls0+vfXFault.K {
+			failed = j.Name
+		}
+	}
+	site := op.site() + "@" + failed
+	detail := func() map[string]any {
+		return map[string]any{"op": op.Name, "failed_call": failed, "k": vfXFault.K, "code": code,
+			"files": x.w.db.DumpTables(true, "files", "filelinks"), "dir": vfC16Ls(x.dir)}
+	}
+	bad := func(key, what string) {
+		out = append(out, vfXViolation{Key: key, What: fmt.Sprintf("%s with store call #%d (%s) failing, answered %d: %s", op.Name, vfXFault.K, failed, code, what), Detail: detail()})
+	}
+	byID := map[types.Uid]*vfC16FUp{}
+	for _, u := range m.Ups {
+		byID[u.ID] = u
+	}
+	// (1) refused => links unchanged
+	if code >= 400 {
+		post := vfC16FActualLinks(x)
+		for _, u := range m.Ups {
+			if u.Gone {
+				continue
+			}
+			if fmt.Sprint(preLinks[u.ID]) != fmt.Sprint(post[u.ID]) {
+				bad("C16:refused-request-moved-links:"+site, fmt.Sprintf("upload #%d was linked to %v, now to %v", u.N, preLinks[u.ID], post[u.ID]))
+			}
+		}
+	}
+	// ground truth referents
+	photoRef := func(public any) string {
+		if pm, ok := public.(map[string]any); ok {
+			if ph, ok := pm["photo"].(map[string]any); ok {
+				r, _ := ph["ref"].(string)
+				return r
+			}
+		}
+		return ""
+	}
+	referenced := map[*vfC16FUp][]string{}
+	tr := x.w.db.Topic(x.grp)
+	topicAlive := tr != nil && tr.State != types.StateDeleted
+	if topicAlive {
+		rows := map[int]bool{}
+		for _, row := range x.w.db.Messages(x.grp) {
+			rows[row.SeqId] = row.DelId == 0
+		}
+		for sq, msg := range m.Msgs {
+			if rows[sq] && !msg.Deleted {
+				for _, a := range msg.Att {
+					referenced[a] = append(referenced[a], fmt.Sprintf("msg:%d", sq))
+				}
+			}
+		}
+		if op.Kind == "pub" {
+			// a message row which the model does not know yet is the one just published
+			for sq, live := range rows {
+				if live && m.Msgs[sq] == nil {
+					for _, sl := range op.Slots {
+						if u := m.live(sl); u != nil {
+							referenced[u] = append(referenced[u], fmt.Sprintf("msg:%d", sq))
+						}
+					}
+				}
+			}
+		}
+		if r := photoRef(tr.Public); r != "" {
+			for _, u := range m.Ups {
+				if u.URL == r {
+					referenced[u] = append(referenced[u], "topic")
+				}
+			}
+		}
+	}
+	if ur := x.w.db.User(x.users["m"].uid); ur != nil {
+		if r := photoRef(ur.Public); r != "" {
+			for _, u := range m.Ups {
+				if u.URL == r {
+					referenced[u] = append(referenced[u], "user")
+				}
+			}
+		}
+	}
+	// (2) grace period passes, then a collection. C16 is not quantified over store faults: what a
+	// failed link call does to an otherwise ACCEPTED request (the server deliberately ignores link
+	// errors for avatars) is reported as a counter, not as a violation. Only requests which were
+	// refused are held to "no effect" above; the panic / stray-bytes checks below always apply.
+	violations := out
+	note := func(key, what string) {
+		info[strings.SplitN(key, "@", 2)[0]]++
+	}
+	_ = violations
+	vsched.Advance(2 * time.Hour)
+	if err := store.Files.DeleteUnused(vsched.PeekNow().Add(-time.Hour), 100); err != nil {
+		vsched.Fail("harness", "follow-up gc: "+err.Error())
+	}
+	vsched.Quiesce()
+	have := map[types.Uid]bool{}
+	for _, fd := range x.w.db.Files() {
+		have[fd.Uid()] = true
+		if byID[fd.Uid()] == nil {
+			bad("C16:failed-upload-never-collected:"+site, "a record which is no completed upload survived the collection: "+fd.Uid().String())
+		}
+	}
+	names := map[string]bool{}
+	ents, _ := os.ReadDir(x.dir)
+	for _, e := range ents {
+		names[e.Name()] = true
+	}
+	for _, u := range m.Ups {
+		if u.Gone {
+			continue
+		}
+		ref := referenced[u]
+		switch {
+		case len(ref) > 0 && (!have[u.ID] || !names[filepath.Base(u.Loc)]):
+			note("referenced-upload-collected-after-fault:"+strings.SplitN(ref[0], ":", 2)[0]+":"+site, fmt.Sprintf("upload #%d is used by %v and was removed by the next collection", u.N, ref))
+		case len(ref) == 0 && have[u.ID]:
+			note("orphan-upload-never-collected-after-fault:"+site, fmt.Sprintf("upload #%d is used by nothing, yet it survives collection after the grace period (links: %v)", u.N, vfC16FActualLinks(x)[u.ID]))
+		}
+	}
+	for _, u := range m.Ups {
+		delete(names, filepath.Base(u.Loc))
+	}
+	if len(names) > 0 {
+		var l []string
+		for n := range names {
+			l = append(l, n)
+		}
+		sort.Strings(l)
+		bad("C16:stray-bytes-after-collection:"+site, fmt.Sprintf("files of no upload remain in the directory: %v", l))
+	}
+	return out
 }
